@@ -116,6 +116,7 @@ pub fn replay(args: &Args) {
             "months" => months(&mut rep, v),
             "group" => group(&mut rep, v),
             "nat" => nat_dur(&mut rep, v),
+            "natt" => nat_dt(&mut rep, v),
             "trunc" => trunc(&mut rep, v),
             "tod" => tod(&mut rep, v),
             _ => {},
@@ -352,6 +353,40 @@ fn nat_dur(rep: &mut Report, v: &Value) {
         Ok(())
     });
     judge(rep, "NaT", "NaT|any duration", &key, "NaT", r, v);
+}
+
+/// a NaT operand against a valid date-time: NaT is absorbing whichever side it is on
+fn nat_dt(rep: &mut Report, v: &Value) {
+    let t = tri(&v["t"]).unwrap();
+    for f in ["dl", "dr", "sum", "dif"] {
+        if v[f].as_array().map(|a| a.len()) != Some(1) {
+            tool_error(&format!("natt record: {f} is not NaT in the specification"));
+        }
+    }
+    for u in UNITS {
+        let Some(x) = enc(t, u) else { continue };
+        let key = format!("NaT with a valid date-time|{u}|t={t:?}");
+        let r = catch(|| {
+            with_unit!(u, U => {
+                let (dt, nat) = (DateTime::<U>::new(x), DateTime::<U>::nat());
+                if !(dt - nat).is_nat() { return Err(format!("valid - NaT = {:?}, want NaT", dt - nat)); }
+                if !(nat - dt).is_nat() { return Err(format!("NaT - valid = {:?}, want NaT", nat - dt)); }
+                if !(nat - nat).is_nat() { return Err("NaT - NaT is not NaT".into()); }
+                if !(dt + TimeDelta::nat()).is_nat() { return Err("valid + NaT duration is not NaT".into()); }
+                if !(dt - TimeDelta::nat()).is_nat() { return Err("valid - NaT duration is not NaT".into()); }
+                Ok(())
+            })
+        });
+        judge(rep, "NaT", "NaT|valid date-time", &key, u, r, v);
+    }
+    // time of day
+    let key = format!("NaT with a valid time of day|t={t:?}");
+    let r = catch(|| {
+        let x = Time::from_i64(t.1 * 1_000_000_000 + t.2);
+        if !(x + TimeDelta::nat()).is_nat() || !(x - TimeDelta::nat()).is_nat() { return Err("valid time of day +/- NaT duration is not NaT".into()); }
+        Ok(())
+    });
+    judge(rep, "NaT", "NaT|valid time of day", &key, "Time", r, v);
 }
 
 fn trunc(rep: &mut Report, v: &Value) {
